@@ -132,16 +132,6 @@ impl Clone for Request {
 
 // ---- the serialiser and the request reader, assumed at this level (their heads are built with
 // format!/write!/regex!, outside Verus; the parts within reach are under contract in other units)
-pub uninterp spec fn ser(r: Response, close: bool) -> Seq<u8>;
-#[verifier::external_body]
-pub fn write_http_response<W: AsyncWrite + Unpin>(mut writer: W, response: &Response, close: bool) -> (r: Result<(), HttpError>)
-    ensures
-        w_kept(writer),
-        match r {
-            Ok(()) => writer.end() == writer.cur() + ser(*response, close),
-            Err(_) => writer.end().is_prefix_of(writer.cur() + ser(*response, close)),
-        },
-{ unimplemented!() }
 #[verifier::external_body]
 pub fn read_http_request<const BUF_SIZE: usize, R: AsyncRead + Unpin>(
     remote_addr: SocketAddr,
